@@ -378,6 +378,131 @@ func genBatchFacts() {
 		l.p("def rpcChanTypeTable : List (Int × Nat) := [%s]", strings.Join(rows, ", "))
 	}
 
+	// ---- helpers below the modelled code: shape facts that justify treating them as pure functions
+	// (a) batchVerifier has exactly the start-up fields and Verify / validateMatchedOrder never assign to one
+	{
+		var fields []string
+		for _, f := range orderF {
+			ast.Inspect(f, func(n ast.Node) bool {
+				ts, ok := n.(*ast.TypeSpec)
+				if !ok || ts.Name.Name != "batchVerifier" {
+					return true
+				}
+				if st, ok := ts.Type.(*ast.StructType); ok {
+					for _, fl := range st.Fields.List {
+						for _, nm := range fl.Names {
+							fields = append(fields, nm.Name)
+						}
+					}
+				}
+				return false
+			})
+		}
+		if len(fields) == 0 {
+			fail("batchVerifier struct not found")
+		}
+		l.p("def verifierFields : List String := %s", leanStrList(fields))
+		var writes []string
+		for _, fn := range []string{"batchVerifier.Verify", "batchVerifier.validateMatchedOrder", "batchVerifier.validateChannelOutput"} {
+			fd := findFunc(orderF, fn)
+			if fd == nil {
+				fail("%s not found", fn)
+				continue
+			}
+			ast.Inspect(fd.Body, func(n ast.Node) bool {
+				as, ok := n.(*ast.AssignStmt)
+				if !ok {
+					return true
+				}
+				for _, lhs := range as.Lhs {
+					x := lhs
+					if ix, ok := x.(*ast.IndexExpr); ok {
+						x = ix.X
+					}
+					if sel, ok := x.(*ast.SelectorExpr); ok {
+						if id, ok := sel.X.(*ast.Ident); ok && id.Name == "v" {
+							writes = append(writes, fn+":"+sel.Sel.Name)
+						}
+					}
+				}
+				return true
+			})
+		}
+		l.p("def verifierFieldWrites : List String := %s", leanStrList(writes))
+	}
+	// (b) the script helpers read no package-level variable (other than the logger)
+	{
+		globals := map[string]bool{}
+		for _, f := range psF {
+			for _, d := range f.Decls {
+				gd, ok := d.(*ast.GenDecl)
+				if !ok || gd.Tok != token.VAR {
+					continue
+				}
+				for _, sp := range gd.Specs {
+					for _, nm := range sp.(*ast.ValueSpec).Names {
+						if nm.Name != "log" && nm.Name != "_" {
+							globals[nm.Name] = true
+						}
+					}
+				}
+			}
+		}
+		var used []string
+		for _, fn := range []string{"AccountScript", "AccountWitnessScript", "accountWitnessScript", "TaprootKey",
+			"TaprootExpiryScript", "TraderKeyTweak", "IncrementKey", "FundingOutput"} {
+			fd := findFunc(psF, fn)
+			if fd == nil {
+				fail("poolscript.%s not found", fn)
+				continue
+			}
+			ast.Inspect(fd.Body, func(n ast.Node) bool {
+				if id, ok := n.(*ast.Ident); ok && globals[id.Name] {
+					used = append(used, fn+":"+id.Name)
+				}
+				return true
+			})
+		}
+		l.p("def scriptHelperGlobals : List String := %s", leanStrList(used))
+	}
+	// (c) ParseRPCServerAsk/Bid take the lease duration from the message as it is, and the channel type of a
+	// counterparty order is assigned only by the cases of the rpc channel-type switch
+	{
+		var src []string
+		for _, fn := range []string{"ParseRPCServerAsk", "ParseRPCServerBid"} {
+			fd := findFunc(orderF, fn)
+			if fd == nil {
+				fail("%s not found", fn)
+				continue
+			}
+			ast.Inspect(fd.Body, func(n ast.Node) bool {
+				switch x := n.(type) {
+				case *ast.CallExpr:
+					if id, ok := x.Fun.(*ast.Ident); ok && id.Name == "ParseRPCServerOrder" && len(x.Args) == 4 {
+						src = append(src, batOneLine(exprString(x.Args[3])))
+					}
+				case *ast.AssignStmt:
+					if len(x.Lhs) == 1 && batOneLine(exprString(x.Lhs[0])) == "kit.LeaseDuration" {
+						src = append(src, batOneLine(exprString(x.Rhs[0])))
+					}
+				}
+				return true
+			})
+		}
+		l.p("def serverOrderDurationSources : List String := %s", leanStrList(src))
+		nAssign := 0
+		if fd := findFunc(orderF, "ParseRPCServerOrder"); fd != nil {
+			ast.Inspect(fd.Body, func(n ast.Node) bool {
+				if as, ok := n.(*ast.AssignStmt); ok && len(as.Lhs) == 1 &&
+					batOneLine(exprString(as.Lhs[0])) == "kit.ChannelType" {
+					nAssign++
+				}
+				return true
+			})
+		}
+		l.p("def serverOrderChanTypeAssignments : Nat := %d", nAssign)
+	}
+
 	l.p("end Pool.Gen.Batch")
 }
 
